@@ -655,7 +655,16 @@ def s11_empty_number_guard(ctx):
         r.unrec(f, "digit cursor variable", short_span(b.span), "found %d candidates" % len(cands))
         return r
     idx, init = list(cands.items())[0]
-    init_local = init[1] if init[0] == "var" else None
+
+    def root_local(o):
+        """follow `let a = b;` chains of single-assignment variables to the first variable"""
+        seen = 0
+        while o[0] == "var" and o[3] is not None and o[3][0] == "var" and seen < 8:
+            o = o[3]
+            seen += 1
+        return o[1] if o[0] == "var" else None
+
+    init_local = root_local(init)
     found = False
     for bb in sorted(b.live_blocks()):
         info = b.switch_info(bb)
@@ -674,7 +683,7 @@ def s11_empty_number_guard(ctx):
                         if rs and all(c == "err" for c, d, rb in rs):
                             found = True
                             ot = others[0]
-                            good = ot[0] == "var" and init_local is not None and ot[1] == init_local
+                            good = init_local is not None and root_local(ot) == init_local
                             r.add(f, "'no digits' test compares the cursor with its starting value", good, where(b, bb), "" if good else "compares with %s but the digit loops start at %s: a bare sign would be accepted as 0" % (origin_str(ot), origin_str(init)))
     if not found:
         r.bad(f, "'no digits' test", short_span(b.span), "no test `cursor == start` guarding an error return: an empty digit string is accepted")
